@@ -49,6 +49,10 @@ type C14Sc struct {
 	LoopLast bool
 	// rlquery cells: the limiter's burst is At-1 and it never refills
 	RLWaitRetries, RLNoWaitFirst bool
+	// Blocklist: the node has an IP blocklist installed that covers none of the addresses involved
+	Blocklist bool
+	// AnnErr (traversal ops): the simulated nodes answer announce_peer and put with a KRPC error
+	AnnErr bool
 }
 
 var c14QueryFaults = []string{"none", "reply-at-send", "reply-at-final-wait", "reply-after-return", "cancel-before-send", "cancel-at-delay", "cancel-and-reply-at-send", "write-error", "close-at-delay", "after-close"}
@@ -82,6 +86,8 @@ func genC14(t *rapid.T) C14Sc {
 		sc.LoopLast = uniformInt(t, 3, "looplast") == 0
 	}
 	sc.Repeat = 1 + uniformInt(t, 4, "repeat")
+	sc.Blocklist = uniformInt(t, 3, "blocklist") == 0
+	sc.AnnErr = uniformInt(t, 4, "annerr") == 0
 	return sc
 }
 
@@ -141,7 +147,12 @@ func c14Cleanup(sv *Srv, c *kit.Case, base map[string]int, closed bool, what str
 }
 
 func runC14Query(sc C14Sc, c *kit.Case) *kit.Violation {
-	sv := newSrv(SrvOpts{NodeID: [20]byte{0xc1, 4}})
+	qopts := SrvOpts{NodeID: [20]byte{0xc1, 4}}
+	if sc.Blocklist {
+		qopts.Blocklist = &blockSet{ips: []net.IP{{203, 0, 113, 99}}}
+		c.Label("irrelevant-blocklist-installed")
+	}
+	sv := newSrv(qopts)
 	closedByTest := false
 	defer func() {
 		if !closedByTest {
@@ -378,6 +389,10 @@ func runC14Trav(sc C14Sc, c *kit.Case) *kit.Violation {
 			opts.Starting = append(opts.Starting, friendlyAddr(1))
 		}
 	}
+	if sc.Blocklist {
+		opts.Blocklist = &blockSet{ips: []net.IP{{203, 0, 113, 99}}}
+		c.Label("irrelevant-blocklist-installed")
+	}
 	sv := newSrv(opts)
 	closedByTest := false
 	defer func() {
@@ -396,6 +411,7 @@ func runC14Trav(sc C14Sc, c *kit.Case) *kit.Violation {
 	net1 := newSimNet(sv)
 	fn := addFriendlyNet(net1, nNodes, func(i int, q SimQuery) bool { return sc.Fault == "silent" })
 	fn.Mapped = sc.At%3 == 1
+	fn.WriteError = sc.AnnErr
 	const heldValue = "9:c14-value"
 	if sc.At%2 == 0 {
 		fn.Value = heldValue // every node holds the item a get asks for: several holders answer at once
